@@ -93,7 +93,7 @@ func genHeight(t *rapid.T, withFaults bool) Height {
 		var x Tx
 		switch rapid.IntRange(0, 5).Draw(t, "szshape") {
 		case 0:
-			x.Size = rapid.IntRange(1, 3).Draw(t, "tiny")
+			x.Size = rapid.IntRange(0, 3).Draw(t, "tiny") // zero-length blobs are blobs too (every DA implementation here stores and returns them)
 		case 1:
 			x.Size = rapid.IntRange(40, 60).Draw(t, "large")
 		default:
@@ -222,7 +222,7 @@ func (m mtx) name() string { return fmt.Sprintf("h%d.%d(%dB)", m.hi, m.pos, len(
 
 func content(i, size int) []byte {
 	if size < 1 {
-		size = 1
+		return []byte{} // a zero-length blob
 	}
 	switch size {
 	case 1:
